@@ -219,7 +219,59 @@ func main() {
 				call(a, nowMs(), 1+rng.Intn(burst))
 			}
 			cl.Close()
+			gcRace(r)
 		}
 	}
 	fmt.Printf("stims=%d random=%d events=%d\n", ns, *random, tr.N)
+}
+
+// gcRace (LimiterStep.tla): the collector has decided to forget an idle, full bucket; before the bucket is gone
+// (the collector is held at its gate) the client comes back and spends its burst, and once the collector has
+// finished it asks again. Within these few milliseconds the subnet gets its burst once.
+func gcRace(r int) {
+	base := time.Now().Add(-10 * time.Minute)
+	at := func(ms int) time.Time { return base.Add(time.Duration(ms) * time.Millisecond) }
+	nowMs := func() int { return int(time.Since(base) / time.Millisecond) }
+	burst := 3 + r%4
+	cl := limiter.NewClientLimiter(limiter.ClientLimiterOpts{Limit: 1, Burst: burst, V4Mask: 24, V6Mask: 48})
+	defer cl.Close()
+	tr.Emit("lim.cfg", "limit", 1, "burst", burst, "v4", 24, "v6", 48)
+	ad := netip.MustParseAddr("10.8.1.1")
+	call := func(ms, n int) {
+		res := cl.AllowN(ad, at(ms), n)
+		tr.Emit("lim.v", "addr", fromAddr(ad), "t", ms, "n", n, "res", res)
+	}
+	call(nowMs()-300000, 1) // five minutes ago: idle and full again by now
+	reached, gate := make(chan struct{}, 1), make(chan struct{})
+	verifhook.SetSched(func(name string, args []any) {
+		if name == "lim.gc" && args[0] == any(cl) {
+			reached <- struct{}{}
+			<-gate
+		}
+	})
+	defer verifhook.SetSched(nil)
+	gcDone := make(chan struct{})
+	go func() { limiter.VerifGC(cl); close(gcDone) }()
+	select {
+	case <-reached:
+	case <-gcDone:
+	}
+	b1 := make(chan struct{})
+	go func() {
+		for i := 0; i < burst; i++ {
+			call(nowMs(), 1)
+		}
+		close(b1)
+	}()
+	select {
+	case <-b1:
+	case <-time.After(30 * time.Millisecond): // these calls may have to wait for the collector
+	}
+	close(gate)
+	<-gcDone
+	<-b1
+	tr.Emit("lim.gc", "t", nowMs())
+	for i := 0; i <= burst; i++ {
+		call(nowMs(), 1)
+	}
 }
